@@ -54,7 +54,7 @@ class C07(ParamsProp):
     def corpus(self):
         return [dict(c) for c in CLAUSES] + super().corpus()
 
-    families = {"deep_ref_layers": 200, "wide_mapping": 15, "both_flags": 40, "many_layers": 20, "override_through_path": 40}
+    families = {"deep_ref_layers": 200, "wide_mapping": 15, "both_flags": 40, "many_layers": 20, "override_through_path": 40, "odd_keys": 80, "dup_in_one_mapping": 100}
 
     def base_cases(self, tier, seed):
         N = 1500 if tier == "quick" else 40000
